@@ -375,7 +375,7 @@ def jobs(tier, seed):
     from ..mdutil import shard_extras
 
     for cfgf in ((S.JS,) if tier == "quick" else (S.JS, S.CM)):
-        for name, extra in shard_extras("a"):
+        for name, extra in shard_extras("a", exclude="\r\0"):
             sp = {k_: dict(v) for k_, v in spec.items()}
             sp["a"] = dict(sp["a"], extra=extra)
             jobs.append({"harness": "frame", "params": {"cfg": cfgf, "scaffold": free_doc(2, "\n"), "spec": sp, "name": "free", "shard": name},
